@@ -5,6 +5,7 @@ import Mkdb.Proofs.RefineHistory
 import Mkdb.Proofs.RefineStmt
 import Mkdb.Proofs.RefineStmtB
 import Mkdb.Proofs.CreateCat
+import Mkdb.Proofs.SpecRefine
 /-!
 # C01 — table contents always equal what the statement history implies
 
@@ -374,5 +375,60 @@ theorem C01_statement_create_existing {s : Store} {pt sch : Levels} {tbls : List
     (hn : name ∈ tbls.map (·.1)) :
     ∃ s', createTable fields name order doFlush s = .err .tableAlreadyExist s' ∧ Same s s' ∧ Cat s' pt sch tbls :=
   createTable_exists_cat h fields name order doFlush hn
+
+end Mkdb.Store
+
+namespace Mkdb.Store
+open Mkdb.Tree Mkdb.Page Mkdb.Tuple Mkdb.Generated
+
+/-! ### The end-to-end refinement: the engine's statements refine the plain in-memory model
+
+`AbsV db.store pt sch tbls sdb`: the store satisfies the catalog invariant and, table by table in
+creation order, its declared columns and the decoded live rows of its tree are the columns and rows
+of the plain database `sdb` (`Mkdb.Spec.SDB`, the very specification the judge evaluates on the
+implementation's outputs).  The three theorems say that whenever the plain model accepts a
+statement, the engine's evaluator (statement loop, catalog lookups, WHERE evaluation, row codec,
+B+ tree, log batch) succeeds and lands in a store that abstracts to the plain model's result. -/
+
+/-- **C01.insert_refines_plain_model** -/
+theorem C01_insert_refines_plain_model (db : Engine.DB) (pt sch : Levels) (tbls : List (Bytes × Levels))
+    (sdb sdb' : Spec.SDB) (h : AbsV db.store pt sch tbls sdb)
+    (table : Bytes) (t : Levels) (ht : (table, t) ∈ tbls)
+    (schema : List FieldDef) (hsch : schemaOf sch table = some schema)
+    (cols : List Bytes) (rows : List (List Val)) (hvalid : ∀ r ∈ rows, ∀ v ∈ r, ValidVal v)
+    (hspec : Spec.specInsert sdb table cols rows = some sdb')
+    (hrun : InsRunOK schema (cols.map Engine.bytesToName) t db.store.hdr.lastKey db.store.hdr.nextLSN
+      db.store.hdr.nextFree rows) :
+    ∃ db' ptF t' logs,
+      Engine.evalInsert db table cols rows = .ok rows.length db' ∧
+      db'.wal = db.wal ++ logs ∧
+      InsApplies table (cols.map Engine.bytesToName) rows db.store logs db'.store ∧
+      AbsV db'.store ptF sch (setTable tbls table t') sdb' ∧
+      db'.store.hdr.lastKey = db.store.hdr.lastKey + rows.length :=
+  evalInsert_refines_specV db pt sch tbls sdb sdb' h table t ht schema hsch cols rows hvalid hspec hrun
+
+/-- **C01.delete_refines_plain_model**: no side condition at all beyond the abstraction. -/
+theorem C01_delete_refines_plain_model (db : Engine.DB) (pt sch : Levels) (tbls : List (Bytes × Levels))
+    (sdb sdb' : Spec.SDB) (h : AbsV db.store pt sch tbls sdb) (table : Bytes) (w : Option Sql.Cond)
+    (hspec : Spec.specDelete sdb table w = some sdb') :
+    ∃ n db' t' logs,
+      Engine.evalDelete db table w = .ok n db' ∧ db'.wal = db.wal ++ logs ∧ logs.length = n ∧
+      AbsV db'.store pt sch (setTable tbls table t') sdb' ∧
+      db'.store.hdr.lastKey = db.store.hdr.lastKey ∧
+      (∀ st sel, Spec.findTable sdb table = some st → Spec.selects st w = some sel →
+        n = (sel.filter id).length) :=
+  evalDelete_refines_specV db pt sch tbls sdb sdb' h table w hspec
+
+/-- **C01.update_refines_plain_model** -/
+theorem C01_update_refines_plain_model (db : Engine.DB) (pt sch : Levels) (tbls : List (Bytes × Levels))
+    (sdb sdb' : Spec.SDB) (h : AbsV db.store pt sch tbls sdb) (table : Bytes)
+    (sets : List (Bytes × Sql.VExpr)) (w : Option Sql.Cond)
+    (hvalid : ∀ p ∈ sets, ∀ l, p.2 = .lit l → ValidVal (Engine.litToVal l))
+    (hspec : Spec.specUpdate sdb table sets w = some sdb') :
+    ∃ db' t' logs,
+      Engine.evalUpdate db table sets w = .ok () db' ∧ db'.wal = db.wal ++ logs ∧
+      AbsV db'.store pt sch (setTable tbls table t') sdb' ∧
+      db'.store.hdr.lastKey = db.store.hdr.lastKey :=
+  evalUpdate_refines_specV db pt sch tbls sdb sdb' h table sets w hvalid hspec
 
 end Mkdb.Store
